@@ -16,7 +16,9 @@ def locOf (W : Work L Z R) (fs₀ : FS P L) (c : Routine × Args P) : Loc P R :=
   ⟨c.2.outs, c.2.tmp, ((prog W c.1 c.2 : Prog P L R).exec fs₀).2⟩
 
 def worldOf (W : Work L Z R) (fs₀ : FS P L) (isInput : P → Prop) (ref cache : P) (zr : Routine) : World P L :=
-  ⟨fs₀, isInput, cache, (fs₀ ref).map (fun rc => W.render (W.compute zr rc))⟩
+  ⟨fs₀, isInput, cache, (fs₀ ref).bind (fun rc => match W.computeErr zr rc with
+    | some _ => none
+    | none => some (W.render (W.compute zr rc)))⟩
 
 theorem mix_noninterfering (W : Work L Z R) (fs₀ : FS P L) (isInput : P → Prop) (ref cache : P) (zr : Routine)
     (calls : List (Routine × Args P)) (h : SharedZoneRun W fs₀ isInput ref cache zr calls) :
